@@ -122,16 +122,29 @@ def evaluate(mid, checks=None, wall="40", suite=True, confirmed=None):
     res.setdefault("base", base)
     res.setdefault("base_commit", sh(["git", "-C", wt, "rev-parse", "--short", "HEAD"]).stdout.strip())
     try:
+        def run_checks():
+            out = {}
+            for cid in checks:
+                env2 = dict(os.environ, VERIF_REPO=wt, VERIF_WALL=str(wall))
+                p = sh([os.path.join(HERE, "check"), cid, "--tier", "quick"], cwd=HERE, env=env2)
+                sigs = re.findall(r"signature: (\S+)", p.stdout) + re.findall(r"unlisted violation signature (\S+)", p.stdout)
+                runs = re.findall(r": (\d+) runs", p.stdout)
+                out[cid] = {"rc": p.returncode, "signatures": sigs[:8], "runs": int(runs[-1]) if runs else None}
+                if p.returncode == 2:
+                    out[cid]["harness"] = p.stdout[-400:]
+            return out
+        base_det = {}
+        if base != "HEAD":
+            # an older tree: what the checks report there WITHOUT the change (defects repaired since) does not count
+            base_det = run_checks()
         sh(["git", "-C", wt, "apply", os.path.join(d, "patch.diff")])
-        det = {}
-        for cid in checks:
-            env2 = dict(os.environ, VERIF_REPO=wt, VERIF_WALL=str(wall))
-            p = sh([os.path.join(HERE, "check"), cid, "--tier", "quick"], cwd=HERE, env=env2)
-            sigs = re.findall(r"signature: (\S+)", p.stdout) + re.findall(r"unlisted violation signature (\S+)", p.stdout)
-            runs = re.findall(r": (\d+) runs", p.stdout)
-            det[cid] = {"rc": p.returncode, "signatures": sigs[:6], "runs": int(runs[-1]) if runs else None}
-            if p.returncode == 2:
-                det[cid]["harness"] = p.stdout[-400:]
+        det = run_checks()
+        for cid, v in det.items():
+            if cid in base_det:
+                v["signatures_on_unchanged_base"] = base_det[cid]["signatures"]
+                v["signatures"] = [x for x in v["signatures"] if x not in base_det[cid]["signatures"]]
+                if not v["signatures"] and v["rc"] == 1:
+                    v["rc"] = 0
         res["checks"] = det
         res["detected_by"] = sorted(c for c, v in det.items() if v["rc"] == 1)
         if not suite and "result" in meta:
